@@ -1,4 +1,6 @@
 -- Root of the library (written by tools/mk_manifest.py): the property theorems of every claimed check.
 import AioslskVerif.Props.C01
 import AioslskVerif.Props.C09
+import AioslskVerif.Props.C12
+import AioslskVerif.Props.C17
 import AioslskVerif.Props.C20
